@@ -174,7 +174,8 @@ STA_SPACE = dict(comps=COMPS, sta=[1, 0.5, 0.1], lta=["window", 2, 1],
                  hvsr=HVSR_KINDS, dt=[0.01, 0.02])
 MINS = [0.2, 0.0, 0.5, 0.8]
 MAXS = [2.5, 1.25, 8.0, 50.0]
-FACTORS = [1.0, 1e-3, 1e3, 1e-8]     # 1e-8: records in physical units (m/s), far below any absolute epsilon
+# 1e-8: records in physical units (m/s); 1e-20 / 1e20: far below / above any absolute epsilon or cap
+FACTORS = [1.0, 1e-3, 1e3, 1e-8, 1e-20, 1e20]
 LIMITS = [(lo, hi) for lo in MINS for hi in MAXS]
 # one-step widenings: (narrow, wide)
 _SM, _SX = sorted(MINS), sorted(MAXS)
@@ -264,6 +265,29 @@ def check_masks(ctx, root, fn, h, kind, kept, detail):
                               expected=kept, observed=m.tolist(),
                               explanation=f"{name} of the attached {tag} object (azimuth index {ai}) "
                                           f"differs from the returned selection")
+
+
+    # the masks of the azimuths are separate states: a later manual rejection on ONE azimuth (an in-place
+    # edit, the way update_peaks_bounded and the frequency-domain rejection write their decisions) leaves the
+    # selection on every other azimuth as the call left it
+    if tag == "azi" and len(trads) > 1 and any(kept):
+        i = kept.index(True)
+        for name in ("valid_window_boolean_mask", "valid_peak_boolean_mask"):
+            m0 = getattr(trads[0], name)
+            if not (isinstance(m0, np.ndarray) and m0.shape == (len(kept),)):
+                continue
+            m0[i] = False
+            ctx.count("mask_independence_checks")
+            for ai, t in enumerate(trads[1:], start=1):
+                if np.asarray(getattr(t, name)).tolist() != kept:
+                    ctx.violation(f"C13:{fn}:mask:azi:shared-between-azimuths", root,
+                                  detail=dict(detail, azimuth_index=ai, mask=name, edited_azimuth_index=0,
+                                              edited_window=i),
+                                  expected=kept, observed=np.asarray(getattr(t, name)).tolist(),
+                                  explanation=f"rejecting window {i} by hand on azimuth index 0 after the call "
+                                              f"changed {name} of azimuth index {ai}")
+                    break
+            m0[i] = True
 
 
 def bits(kept):
@@ -636,6 +660,142 @@ def same_n_roots(tier):
 
 
 # ---------------------------------------------------------------------------
+# STA/LTA, windows of DIFFERENT length (same time step) inside one list
+#
+# Every quantity the criterion needs (number of whole chunks, LTA prefix) is a property of the window it is
+# computed for.  Lists over {3 s, 4 s, 7 s} x {stationary, spike in the first second, spike in the last
+# second} are screened; every decision is compared with the reference for that window (clear windows) and
+# with the decision for the list holding that window only.
+
+UNEQ_DT = 0.01
+UNEQ_LENGTHS = {"3": 300, "4": 400, "7": 700}
+UNEQ_CONTENT = {"S": ("flat", "flat", "flat"), "Te": ("tail_e", "flat", "flat"), "Tl": ("flat", "flat", "tail_l")}
+UNEQ_ALPHA = [f"{c}{l}" for l in UNEQ_LENGTHS for c in UNEQ_CONTENT]
+UNEQ_STA_LTA = [(1, 2), (0.5, 3), (1, 3)]
+UNEQ_LIMITS = [(0.2, 2.5), (0.5, 1.5), (0.2, 8.0), (0.0, 50.0)]
+UNEQ_COMPS = [("ns", "ew", "vt"), ("ns",), ("vt",)]
+_ARR_U = {}
+_VAR_U = {}
+
+
+def uneq_arrays(name):
+    if name not in _ARR_U:
+        content, n = name[:-1], UNEQ_LENGTHS[name[-1]]
+
+        def env(en):
+            if en == "flat":
+                return [1.0] * n
+            if en == "tail_e":      # x8 between 0.2 s and 0.8 s
+                return [8.0 if 20 <= i < 80 else 1.0 for i in range(n)]
+            return [8.0 if n - 80 <= i < n - 20 else 1.0 for i in range(n)]     # x8 in the last second
+        _ARR_U[name] = {c: np.array([e * v for e, v in zip(env(en), carrier(c, n))])
+                        for c, en in zip(ALL, UNEQ_CONTENT[content])}
+    return _ARR_U[name]
+
+
+def uneq_verdict(w, comps, sta, lta, lo, hi):
+    classes = []
+    for c in comps:
+        key = (w, c, sta, lta)
+        if key not in _VAR_U:
+            vs = RS.ratio_variants(uneq_arrays(w)[c].tolist(), UNEQ_DT, sta, lta)
+            _VAR_U[key] = [dict(chunk=v["chunk"], lta_len=v["lta_len"], lta_from=v["lta_from"],
+                                ratios=[min(v["ratios"]), max(v["ratios"])]) for v in vs]
+        classes.append(RS.classify(_VAR_U[key], lo, hi))
+    return RS.window_verdict(classes), classes
+
+
+def uneq_records(ws):
+    recs = []
+    for w in ws:
+        a = uneq_arrays(w)
+        recs.append(SeismicRecording3C(TimeSeries(a["ns"], UNEQ_DT), TimeSeries(a["ew"], UNEQ_DT),
+                                       TimeSeries(a["vt"], UNEQ_DT)))
+    return recs
+
+
+def uneq_root(ctx, root):
+    single = {}
+    for ws in root["lists"]:
+        patterns = set()
+        for (sta, lta), comps, (lo, hi) in itertools.product(UNEQ_STA_LTA, UNEQ_COMPS, UNEQ_LIMITS):
+            detail = dict(fn="sta_lta_window_rejection", family="windows of different length in one list",
+                          windows=ws, n_samples=[UNEQ_LENGTHS[w[-1]] for w in ws], dt=UNEQ_DT, components=comps,
+                          sta_seconds=sta, lta_seconds=lta, min_ratio=lo, max_ratio=hi, hvsr="none",
+                          signals="hvmc.checks.c13.uneq_arrays(name)[component]")
+            calls = [("list", ws)] + [("single", [w]) for w in ws if (w, sta, lta, comps, lo, hi) not in single]
+            kept_list = None
+            for what, items in calls:
+                recs = uneq_records(items)
+                ctx.count("states")
+                try:
+                    out = sta_lta_window_rejection(recs, sta_seconds=sta, lta_seconds=lta, min_sta_lta_ratio=lo,
+                                                   max_sta_lta_ratio=hi, components=comps, hvsr=None)
+                except Exception as e:      # noqa: BLE001
+                    ctx.count("transitions")
+                    ctx.violation("C13:sta_lta:call:raises", root, detail=dict(detail, windows=items),
+                                  observed=f"{type(e).__name__}: {e}",
+                                  explanation="sta_lta_window_rejection raised inside its domain")
+                    if what == "single":
+                        single[(items[0], sta, lta, comps, lo, hi)] = None
+                    continue
+                ctx.count("transitions")
+                kept = selection(recs, out)
+                if kept is None:
+                    ctx.violation("C13:sta_lta:returned-list:identity-order", root, detail=dict(detail, windows=items),
+                                  observed=repr(out)[:300],
+                                  explanation="the returned value is not a sub-list of the given windows")
+                    continue
+                if what == "list":
+                    kept_list = kept
+                else:
+                    single[(items[0], sta, lta, comps, lo, hi)] = kept[0]
+            if kept_list is None:
+                continue
+            patterns.add(tuple(kept_list))
+            ctx.outcome(f"u|{'.'.join(ws)}|{bits(kept_list)}")
+            compared = False
+            for i, w in enumerate(ws):
+                exp, classes = uneq_verdict(w, comps, sta, lta, lo, hi)
+                if exp is None:
+                    ctx.count("unclear_window_decisions")
+                else:
+                    compared = True
+                    ctx.count("clear_kept" if exp else "clear_rejected")
+                    ctx.count("uneq_clear_kept" if exp else "uneq_clear_rejected")
+                    if exp != kept_list[i]:
+                        which = "clear-inside:rejected" if exp else "clear-outside:kept"
+                        ctx.violation(f"C13:sta_lta:unequal-lengths:{which}", root,
+                                      detail=dict(detail, window_index=i, window=w, classes=dict(zip(comps, classes))),
+                                      expected=exp, observed=kept_list[i],
+                                      explanation="in a list of windows of different length a window clearly "
+                                                  + ("inside the limits was rejected" if exp else
+                                                     "outside the limits was kept"))
+                s1 = single.get((w, sta, lta, comps, lo, hi))
+                if s1 is not None:
+                    ctx.count("list_independence_comparisons")
+                    ctx.count("uneq_list_independence_comparisons")
+                    if s1 != kept_list[i]:
+                        ctx.violation("C13:sta_lta:unequal-lengths:list-dependence", root,
+                                      detail=dict(detail, window_index=i, window=w), expected=s1, observed=kept_list[i],
+                                      explanation="the decision for a window inside a list of windows of different "
+                                                  "length differs from the decision for that window alone")
+            if compared:
+                ctx.count("validated")
+        if len(patterns) > 1:
+            ctx.nontrivial_case(f"u|{'.'.join(ws)}")
+    if len(ctx.samples) < 4:
+        ctx.sample(dict(fn="sta_lta_window_rejection", family="windows of different length in one list",
+                        lists=root["lists"][:3], sta_lta=UNEQ_STA_LTA, limits=UNEQ_LIMITS, components=UNEQ_COMPS))
+
+
+def uneq_roots(tier):
+    l2 = [list(t) for t in itertools.product(UNEQ_ALPHA, repeat=2)]
+    lists = l2 if tier == "quick" else l2 + [list(t) for t in itertools.product(UNEQ_ALPHA, repeat=3)]
+    return [dict(fn="sta_lta_unequal", lists=g) for g in _groups(lists, 9 if tier == "quick" else 27)]
+
+
+# ---------------------------------------------------------------------------
 # maximum value
 
 def maxval_case(ctx, root, ws, case):
@@ -749,12 +909,16 @@ def roots(tier, seed):
             for p in range(parts):
                 out.append(dict(fn=fn, k=k, lists=g, part=[p, parts]))
     out += same_n_roots(tier)
+    out += uneq_roots(tier)
     return out
 
 
 def run_root(root, ctx, tier):
     if root["fn"] == "sta_lta_same_n":
         same_n_root(ctx, root)
+        return
+    if root["fn"] == "sta_lta_unequal":
+        uneq_root(ctx, root)
         return
     fn, k = root["fn"], root["k"]
     space = STA_SPACE if fn == "sta_lta" else MAX_SPACE
@@ -769,8 +933,8 @@ def run_root(root, ctx, tier):
             runner(ctx, root, ws, case)
     if len(ctx.samples) < 2 and cases:
         ctx.sample(dict(fn=fn, windows=root["lists"][0], configuration=cases[-1],
-                        inner_grid="16 limit pairs x 4 factors" if fn == "sta_lta"
-                        else "10 (normalized, threshold) x 4 factors",
+                        inner_grid=f"16 limit pairs x {len(FACTORS)} factors" if fn == "sta_lta"
+                        else f"10 (normalized, threshold) x {len(FACTORS)} factors",
                         window_definitions={w: WINDOWS[w] for w in root["lists"][0]}))
 
 
@@ -780,7 +944,8 @@ def finalize(ctx, tier):
             "list_independence_comparisons", "conjunction_comparisons", "rescaling_comparisons",
             "widening_comparisons", "alt_first_component_only_differs",
             "alt_per_window_normalisation_differs", "same_n_clear_kept", "same_n_clear_rejected",
-            "alt_other_time_step_layout_differs"]
+            "alt_other_time_step_layout_differs", "uneq_clear_kept", "uneq_clear_rejected",
+            "uneq_list_independence_comparisons"]
     missing = [n for n in need if not c.get(n)]
     if c.get("same_n_roots_without_discriminating_decision"):
         missing.append("same_n root in which the chunk layout of the other time step never decides otherwise")
@@ -810,7 +975,7 @@ def describe(tier):
              "4 s windows); for every list of the plan below every configuration within k deviations of "
              "the default (components in 11 orders/subsets, sta, lta, hvsr in {none, traditional, "
              "azimuthal x fresh/pre-set masks}, dt) and inside every configuration the complete grid of "
-             "16 (min,max) limits x 4 amplitude factors (STA/LTA) or 10 (normalised, threshold) x 4 "
+             "16 (min,max) limits x 6 amplitude factors (1, 1e-3, 1e3, 1e-8, 1e-20, 1e20; STA/LTA) or 10 (normalised, threshold) x 6 "
              "factors (maximum value); each element is one execution of the real function on fresh "
              "objects.  A case is counted non-trivial/distinct by (function, list, components, dt, sta, "
              "lta) when its inner grid produced at least two different selections.  Family sta_lta_same_n: for "
@@ -819,7 +984,13 @@ def describe(tier):
              "(min,max) limits are run for windows {stationary, short burst x6 early / x3 mid / x3 late, step "
              "up, step down, early step} of the SAME sample count at each time step, every call judged by the "
              "reference with the window's own time step (clear-inside / clear-outside); a call whose decisions "
-             "are all those of another time step's sample counts is keyed same-sample-count-other-time-step",
+             "are all those of another time step's sample counts is keyed same-sample-count-other-time-step.  Family "
+             "sta_lta_unequal: every list of 2 (quick) / 2-3 (thorough) windows over {3 s, 4 s, 7 s} x {stationary, "
+             "burst in the first second, burst in the last second} at one time step x 3 (sta, lta) x 3 component "
+             "choices x 4 limits, each decision compared with the reference for that window and with the decision "
+             "for the list holding only that window.  After every call with an azimuthal result attached one kept "
+             "window is rejected by hand on azimuth index 0 and the masks of the other azimuths must still equal "
+             "the selection",
         bounds=dict(plan=sizes, alphabet=ALPHA, reduced_alphabets=dict(R4=R4, R3=R3),
                     sta=STA_SPACE["sta"], lta=STA_SPACE["lta"], dt=STA_SPACE["dt"],
                     min_ratio=MINS, max_ratio=MAXS, factors=FACTORS, maximum_value_criteria=CRITS,
